@@ -11,7 +11,7 @@ import sympy as sp
 from ..algebra import Untranslatable, is_zero, to_sympy
 from ..core.terms import cmp_, not_, pc, phi_  # noqa: F401
 from ..core.terms import c, evaluate, fn_name, kw, n, pretty, subterms
-from .common import is_call, method, short
+from .common import fn_parts, is_call, method, short
 
 MVND = "liesel.distributions.mvn_degen.MultivariateNormalDegenerate"
 COP = "liesel.distributions.copulas.GaussianCopula"
@@ -252,10 +252,10 @@ def check(ctx):
             ok_a = no_rank == cmp_(">", ev_, n("tol"))
             ok_b = False
             if is_call(with_rank, "jax.lax.fori_loop") and with_rank[2][:2] == (c(0), size_t) \
-                    and len(with_rank[2]) == 4 and with_rank[2][2][0] == "fn":
-                fnf = repo.functions.get(with_rank[2][2][1])
-                rf = evaluate(repo, fnf, closure=evaluate(repo, pd).closure()).ret()
-                i_p, x_p = (n(p_) for p_ in fnf.params()[:2])
+                    and len(with_rank[2]) == 4 and fn_parts(
+                        repo, with_rank[2][2], evaluate(repo, pd).closure()) is not None:
+                f_params, rf = fn_parts(repo, with_rank[2][2], evaluate(repo, pd).closure())
+                i_p, x_p = (n(p_) for p_ in f_params[:2])
                 if rf is not None and rf[0] == "call" and rf[1][0] == "a" and rf[1][2] == "set" \
                         and rf[1][1] == ("s", ("a", x_p, "at"), ("tuple", (c(Ellipsis), i_p))) \
                         and len(rf[2]) == 1:
